@@ -32,6 +32,7 @@ type Unit struct {
 }
 
 type Engine struct {
+	knownOpen map[string]bool // obligation names listed as open findings: one short attempt each
 	repo   string
 	fset   *token.FileSet
 	pkgs   []*packages.Package
